@@ -13,6 +13,7 @@ from typing import List
 from typing import Mapping
 from typing import MutableMapping
 from typing import MutableSequence
+from typing import Sequence
 from typing import TypeVar
 from typing import Union
 
@@ -25,6 +26,31 @@ from jsonpath.exceptions import JSONPointerKeyError
 from jsonpath.exceptions import JSONPointerTypeError
 from jsonpath.pointer import UNDEFINED
 from jsonpath.pointer import JSONPointer
+
+
+def _json_equal(left: object, right: object) -> bool:
+    """Deep equality of JSON values, as defined by RFC 6902 section 4.6.
+
+    Unlike Python's `==`, `True` and `False` are not equal to `1` and `0`, at
+    any depth.
+    """
+    if isinstance(left, bool) or isinstance(right, bool):
+        return isinstance(left, bool) and isinstance(right, bool) and left == right
+
+    if isinstance(left, str) or isinstance(right, str):
+        return left == right
+
+    if isinstance(left, Mapping) and isinstance(right, Mapping):
+        return len(left) == len(right) and all(
+            key in right and _json_equal(val, right[key]) for key, val in left.items()
+        )
+
+    if isinstance(left, Sequence) and isinstance(right, Sequence):
+        return len(left) == len(right) and all(
+            _json_equal(a, b) for a, b in zip(left, right)  # noqa: B905
+        )
+
+    return left == right
 
 
 class Op(ABC):
@@ -316,7 +342,7 @@ class OpTest(Op):
     ) -> Union[MutableSequence[object], MutableMapping[str, object]]:
         """Apply this patch operation to _data_."""
         _, obj = self.path.resolve_parent(data)
-        if not obj == self.value:
+        if not _json_equal(obj, self.value):
             raise JSONPatchTestFailure
         return data
 
